@@ -346,3 +346,101 @@ func famAlias(g *Gen) {
 	// and the back-propagation is unaffected
 	g.weightAndBackprop(z)
 }
+
+// C10, first sentence: no operation, back-propagation or update changes the shape or elements of any EXISTING
+// tensor.  A pool of tensors with compatible shapes goes through a random history of operations of every kind;
+// at the end every tensor of the history is looked at again (shape and a full copy).
+func famFrame(g *Gen) {
+	g.nontr = true
+	m, n, k := 1+g.intn(3), 1+g.intn(3), 1+g.intn(3)
+	if g.chance(0.5) {
+		// m >= n >= k, not all equal
+		m, n, k = 3, 2+g.intn(2), 1+g.intn(2)
+	}
+	b := 1 + g.intn(2)
+	tr := func() bool { return g.chance(0.5) }
+	pool := []int{
+		g.leafDistinct([]int{m, n}, tr(), -2, 2),
+		g.leafDistinct([]int{n, k}, tr(), -2, 2),
+		g.leafDistinct([]int{n}, tr(), -2, 2),
+		g.leafDistinct([]int{b, m, n}, tr(), -2, 2),
+		g.leafDistinct([]int{}, tr(), 1, 2),
+	}
+	pickT := func() int { return pool[g.intn(len(pool))] }
+	steps := 6 + g.intn(12)
+	for i := 0; i < steps; i++ {
+		x := pickT()
+		ds := g.shapeSafe(x)
+		r := len(ds)
+		var y int
+		var o Obs
+		switch g.intn(16) {
+		case 0, 1:
+			// a matrix product with some tensor of the pool as the right operand (valid only for matching sizes)
+			y, o = g.do(Cmd{Op: OpMatMul, T: x, U: T(pickT())})
+		case 2:
+			y, o = g.do(Cmd{Op: OpDot, T: x, U: T(pickT())})
+		case 3, 4:
+			y, o = g.do(Cmd{Op: OpBin, K: 8 + g.intn(4), T: x, U: T(pickT())})
+		case 5:
+			y, o = g.do(Cmd{Op: OpMath, K: g.pick(2, 3, 7), T: x})
+		case 6:
+			if r >= 1 {
+				y, o = g.do(Cmd{Op: OpAlong, K: g.intn(7), T: x, Z: g.intn(r)})
+			} else {
+				y, o = g.do(Cmd{Op: OpReduce, K: g.intn(7), T: x})
+			}
+		case 7:
+			if r >= 2 {
+				y, o = g.do(Cmd{Op: OpTranspose, T: x})
+			} else {
+				y, o = g.do(Cmd{Op: OpUnsqueeze, T: x, Z: 0})
+			}
+		case 8:
+			y, o = g.do(Cmd{Op: OpUnsqueeze, T: x, Z: g.intn(r + 1)})
+		case 9:
+			if r >= 1 {
+				y, o = g.do(Cmd{Op: OpFlatten, T: x, Z: g.intn(r)})
+			} else {
+				y, o = g.do(Cmd{Op: OpScale, T: x, A: Dec{3, 0}})
+			}
+		case 10:
+			if r >= 1 {
+				src, pidx := g.patchArgs(ds)
+				p := g.leafDistinct(src, tr(), 30, 40)
+				y, o = g.do(Cmd{Op: OpPatch, T: x, Ranges: pidx, U: T(p)})
+			} else {
+				y, o = g.do(Cmd{Op: OpPow, T: x, A: Dec{2, 0}})
+			}
+		case 11:
+			if r >= 1 {
+				y, o = g.do(Cmd{Op: OpConcat, Targs: []Targ{T(x), T(x)}, Z: g.intn(r)})
+			} else {
+				y, o = g.do(Cmd{Op: OpReduce, K: 0, T: x})
+			}
+		case 12:
+			if prod(ds) <= 60 {
+				y, o = g.do(Cmd{Op: OpBroadcast, T: x, Dims: g.bcastTarget(ds)})
+			}
+		case 13:
+			y, o = g.do(Cmd{Op: OpReduce, K: g.intn(7), T: x})
+		case 14:
+			g.do(Cmd{Op: OpBackprop, U: T(x)})
+			continue
+		default:
+			y, o = g.do(Cmd{Op: OpGradOf, T: x})
+		}
+		if o.Kind == "tensor" && g.isT(y) && prod(g.shapeSafe(y)) <= 200 {
+			pool = append(pool, y)
+		}
+	}
+	g.tag("frame-history")
+	// every tensor of the history, in creation order
+	for _, i := range g.tensors() {
+		if prod(g.shapeSafe(i)) > 400 {
+			continue
+		}
+		g.do(Cmd{Op: OpShape, T: i})
+		g.do(Cmd{Op: OpSlice, T: i, Ranges: nil})
+	}
+}
